@@ -794,6 +794,9 @@ class Ctx:
             g = z3.BoolVal(goal)
         else:
             g = _b(goal)
+        meta = dict(meta or {})
+        if z3.is_eq(g) and not self.spec and self.product_congruence(g):
+            meta["tactic"] = "product-congruence"
         self.obls.append(Obligation(name, self.fn_name, list(self.pc), g,
                                     self.cur_line, tuple(self.decisions[:self.pos]), meta, kind))
         # later code on this path may rely on it (it is checked separately)
@@ -880,9 +883,12 @@ class Ctx:
     def _match_div(self, at, bt):
         """division-uniqueness lemma applied syntactically: if a is literally A*b + x and the path
         condition entails 0 <= x < b, then a // b == A and a % b == x."""
-        if not z3.is_add(at):
+        if z3.is_mul(at):
+            args = [at]
+        elif z3.is_add(at):
+            args = list(at.children())
+        else:
             return None
-        args = list(at.children())
         bid = bt.get_id()
         for k, t in enumerate(args):
             if z3.is_mul(t):
@@ -964,6 +970,10 @@ def check_sat(assumptions, extra, timeout_ms, nl=True):
 
 def discharge(ob, inputs, timeout_ms=20000, use_cvc5=True, minimise=True):
     """Returns dict(verdict= proved|refuted|unknown, backend, time, model?)"""
+    if ob.meta.get("tactic") == "product-congruence":
+        return {"name": ob.name, "fn": ob.fn, "line": ob.lineno, "kind": ob.kind, "time_s": 0.0,
+                "backend": "pyvc AC-congruence of products; factor equalities by z3-" + z3.get_version_string(),
+                "verdict": "proved"}
     neg = z3.Not(ob.goal)
     backend = "z3-" + z3.get_version_string()
     r, s, dt = check_sat(ob.assumptions, [neg], min(timeout_ms, 4000))
@@ -1032,3 +1042,138 @@ def cvc5_check(solver, timeout_ms):
     except Exception as e:  # pragma: no cover
         v = f"error:{e}"
     return v, time.time() - t0
+
+
+# --------------------------------------------------------------------------- exact-dyadic floats
+
+class SDyad(Sym):
+    """A float64 value known to be the dyadic rational num / den (den a concrete power of two).
+    Regime 'exact-dyadic': IEEE arithmetic on such values is exact as long as |num| < 2^53, which is
+    an obligation at the rounding step (np.rint)."""
+    __slots__ = ("num", "den")
+
+    def __init__(self, num, den=1):
+        self.num = num if isinstance(num, z3.ExprRef) else z3.IntVal(int(num))
+        self.den = den
+
+    @staticmethod
+    def of(v):
+        if isinstance(v, SDyad):
+            return v
+        if isinstance(v, bool):
+            return SDyad(z3.IntVal(int(v)), 1)
+        if isinstance(v, int):
+            return SDyad(z3.IntVal(v), 1)
+        if isinstance(v, SInt):
+            return SDyad(v.t, 1)
+        if isinstance(v, float):
+            from fractions import Fraction
+            f = Fraction(v)
+            d = f.denominator
+            if d & (d - 1):
+                raise Unsupported("non-dyadic float constant")
+            return SDyad(z3.IntVal(f.numerator), d)
+        import numpy as np
+        if isinstance(v, np.floating):
+            return SDyad.of(float(v))
+        if isinstance(v, np.integer):
+            return SDyad.of(int(v))
+        raise Unsupported(f"cannot use {type(v).__name__} as a dyadic float")
+
+    def _align(self, o):
+        o = SDyad.of(o)
+        d = max(self.den, o.den)
+        return self.num * (d // self.den), o.num * (d // o.den), d
+
+    def __add__(self, o):
+        a, b, d = self._align(o)
+        return SDyad(a + b, d)
+
+    __radd__ = __add__
+
+    def __sub__(self, o):
+        a, b, d = self._align(o)
+        return SDyad(a - b, d)
+
+    def __rsub__(self, o):
+        a, b, d = self._align(o)
+        return SDyad(b - a, d)
+
+    def __mul__(self, o):
+        o = SDyad.of(o)
+        if z3.is_int_value(o.num) or z3.is_int_value(self.num):
+            return SDyad(self.num * o.num, self.den * o.den)
+        raise Unsupported("product of two symbolic dyadic floats")
+
+    __rmul__ = __mul__
+
+    def __neg__(self):
+        return SDyad(-self.num, self.den)
+
+    def _cmp(self, o, f):
+        a, b, d = self._align(o)
+        return SBool(f(a, b))
+
+    def __eq__(self, o):
+        if o is None or isinstance(o, str):
+            return False
+        return self._cmp(o, lambda a, b: a == b)
+
+    def __ne__(self, o):
+        if o is None or isinstance(o, str):
+            return True
+        return self._cmp(o, lambda a, b: a != b)
+
+    def __lt__(self, o): return self._cmp(o, lambda a, b: a < b)
+    def __le__(self, o): return self._cmp(o, lambda a, b: a <= b)
+    def __gt__(self, o): return self._cmp(o, lambda a, b: a > b)
+    def __ge__(self, o): return self._cmp(o, lambda a, b: a >= b)
+    def __hash__(self): return id(self)
+
+    def rint(self):
+        """round half to even -> integral dyadic"""
+        if self.den == 1:
+            return self
+        d = self.den
+        q = self.num / d            # floor (d > 0 constant)
+        r = self.num % d
+        res = z3.If(2 * r < d, q, z3.If(2 * r > d, q + 1, z3.If(q % 2 == 0, q, q + 1)))
+        return SDyad(res, 1)
+
+    def trunc_int(self):
+        if self.den == 1:
+            return self.num
+        d = self.den
+        return z3.If(self.num >= 0, self.num / d, -((-self.num) / d))
+
+    def __repr__(self):
+        return f"SDyad({self.num}/{self.den})"
+
+
+_old_ite = ite
+
+
+def ite(c, a, b):  # noqa: F811
+    if isinstance(a, SDyad) or isinstance(b, SDyad):
+        if isinstance(c, bool):
+            return a if c else b
+        x, y, d = SDyad.of(a)._align(b)
+        return SDyad(z3.If(_b(c), x, y), d)
+    return _old_ite(c, a, b)
+
+
+_old_smin, _old_smax = smin, smax
+
+
+def smin(a, b):  # noqa: F811
+    if isinstance(a, SDyad) or isinstance(b, SDyad):
+        x, y, d = SDyad.of(a)._align(b)
+        return SDyad(z3.If(y < x, y, x), d)
+    return _old_smin(a, b)
+
+
+def smax(a, b):  # noqa: F811
+    if isinstance(a, SDyad) or isinstance(b, SDyad):
+        x, y, d = SDyad.of(a)._align(b)
+        return SDyad(z3.If(y > x, y, x), d)
+    return _old_smax(a, b)
